@@ -30,8 +30,7 @@ class Projection:
         """
         tolerance1 = 1e-6
         umin, umax = curves[0].knotvector.limits
-        niter = 0
-        while True:
+        for _ in range(100):
             bezui = curves[0](initparam) - point
             dbezui = curves[1](initparam)
             ddbezui = curves[2](initparam)
@@ -44,9 +43,11 @@ class Projection:
                 return (umin,)
             if initparam > umax:
                 return (umax,)
-            if np.abs(diff) < tolerance1:
-                return [initparam]
-            niter += 1
+            if not np.abs(diff) >= tolerance1:
+                break
+        if not np.isfinite(initparam):
+            return (umin, umax)
+        return [initparam]
 
     @staticmethod
     def point_on_bezier(point: Tuple[float], bezier: Curve) -> Tuple[float]:
